@@ -182,6 +182,24 @@ CLAIMED["C01"] = dict(
    technique="Coq proof (Coquelicot auto_derive/field, mathcomp det_trig/det_mulmx) + AST translator + correspondence",
    design="DESIGN.md section 4, C01")
 
+CLAIMED["C02"] = dict(
+   text="Coq theorems in exact real arithmetic about the formulas regenerated from the source: for the rational-quadratic "
+        "bin the code's discriminant assertion never fires, the returned root lies in the bin, forward(inverse(y)) = y, "
+        "inverse(forward(x)) = x and the inverse's log-abs-det is minus the forward's at the pre-image; the quadratic "
+        "bin's (repaired) root lies in [0,1] and is the pre-image for every pair of heights, equal ones included; "
+        "exp, ActNorm, gate and affine elements invert exactly; a masked autoregressive inverse is exact after D "
+        "passes and its last pass evaluates the log-det at the true pre-image (axiom-free, from C06's property); "
+        "coupling (C07), composite / inverse wrapper / multiscale (C08) and BatchNorm-eval (C14) inverses are proved "
+        "in those files. PARTIAL: the cubic inverse, the tanh / sigmoid / Cauchy / LogTanh inverse identities, the "
+        "linear family (C11), UMNN bisection, and everything about floating point (accuracy scaled by conditioning, "
+        "finiteness) are covered only by the correspondence and by the round-trip search (both orders, log-det "
+        "negation, finiteness, all catalogue transforms, splines on knots/end points with exactly-zero and one-hot "
+        "parameters).",
+   note="Trusted: Coq kernel; Reals/Coquelicot axioms; translator; extraction; harness. Known finding: cubic inverse "
+        "non-finite at the upper end point for one-hot parameters.",
+   technique="Coq proof (real algebra of the stable roots, induction over passes) + AST translator + correspondence",
+   design="DESIGN.md section 4, C02")
+
 def main():
     checks = []
     for pid in ALL:
